@@ -267,7 +267,10 @@ func (t *TrafBox) OptimizeTfhdTrun() error {
 				break
 			}
 		}
-		if allZeroCTO {
+		// DecodeTrun refuses a trun with more than 1024 samples and no per-sample field at all
+		// (guard against allocations for hostile sample counts), so the last field of such a trun is kept
+		otherField := trun.HasSampleDuration() || trun.HasSampleSize() || trun.HasSampleFlags()
+		if allZeroCTO && (len(trun.Samples) <= 1024 || otherField) {
 			trun.Flags = trun.Flags & ^TrunSampleCompositionTimeOffsetPresentFlag
 		}
 	}
